@@ -292,5 +292,11 @@ def apply (g : Graph) (next : Nat) (stmt : Stmt) : Except Err (Graph × Nat × C
   let s ← applyClauses A params stmt.updates { g, next } T
   pure (s.g, s.next, s.c)
 
+/-- several statements in one transaction: one after the other, each from the graph the previous one left -/
+def applyTxn (g : Graph) (next : Nat) (stmts : List Stmt) : Except Err (Graph × Nat × List Nat) :=
+  stmts.foldlM (fun (acc : Graph × Nat × List Nat) stmt => do
+    let (g', next', c) ← apply A params acc.1 acc.2.1 stmt
+    pure (g', next', acc.2.2 ++ [c.total])) (g, next, [])
+
 end Spec
 end Nervus.Cy
